@@ -54,7 +54,10 @@ def verif_snapshot():
 
 
 def run_check(d, prop, tier='quick'):
-    env = dict(os.environ, VERIF_REPO=d, VERIF_OUT=os.path.join(d, 'out'))
+    # (sensitivity runs only ask whether a violation is reported: the
+    # minimisation of what was found is skipped)
+    env = dict(os.environ, VERIF_REPO=d, VERIF_OUT=os.path.join(d, 'out'),
+               VERIF_NO_SHRINK='1')
     t0 = time.time()
     p = subprocess.run([os.path.join(verif_snapshot(), 'verif'), 'check',
                         prop, '--tier', tier], env=env, capture_output=True,
